@@ -745,6 +745,36 @@ func pow(b, e int) int {
 }
 
 // refVerdict runs the reference machine on a complete input.
+// refRun runs the reference table (every conflict resolved as C04 prescribes)
+// on an input and returns the rules it reduces by, in order, and the outcome.
+// An unknown token is an error in every state (no reduction is made for it).
+func refRun(m *lrm.Machine, o *obs, in string) ([]int, lrm.Outcome) {
+	toks := o.toks(in)
+	c := lrm.Config{St: []int{0}, Sym: []int{o.g.EOF()}}
+	var reds []int
+	pos := 0
+	for {
+		la := o.g.EOF()
+		if pos < len(toks) {
+			la = toks[pos]
+			if la < 0 {
+				la = len(o.g.Names) + 1 // a symbol the reference table has no column for
+			}
+		}
+		next, sr := m.Step(c, la, 4000)
+		for _, ev := range sr.Events {
+			if ev.Kind == 'r' {
+				reds = append(reds, ev.Rule)
+			}
+		}
+		if sr.Out != lrm.Shifted {
+			return reds, sr.Out
+		}
+		c = next
+		pos++
+	}
+}
+
 func refVerdict(m *lrm.Machine, o *obs, in string) lrm.Outcome {
 	toks := o.toks(in)
 	c := lrm.Config{St: []int{0}, Sym: []int{o.g.EOF()}}
